@@ -1,0 +1,7 @@
+//go:build verif
+
+package pgdump
+
+// VerifFindTableByName exposes findTableByName (dropped.go): the by-name relation lookup over the
+// pg_class map.
+var VerifFindTableByName = findTableByName
